@@ -186,38 +186,42 @@ Inductive pitem :=
 
 Definition pres := (result * Q * option Q)%type.          (* outcome of the item, now, peek afterwards *)
 
-Fixpoint steps (n : nat) (fuel : nat) (codes : list prog) (s : state) : state * result :=
+(* [fixed_stop] = true: the repaired kernel ([step]/[run]); false: the kernel as found before the C03 fix *)
+Fixpoint steps_sel (fixed_stop : bool) (n : nat) (fuel : nat) (codes : list prog) (s : state) : state * result :=
   match n with
   | O => (s, ROk)
-  | S m => let '(s1, r) := step fuel codes s in
-           match r with ROk => steps m fuel codes s1 | _ => (s1, r) end
+  | S m => let '(s1, r) := step_sel fixed_stop fuel codes s in
+           match r with ROk => steps_sel fixed_stop m fuel codes s1 | _ => (s1, r) end
   end.
+Definition steps := steps_sel true.
 
 (* what the caller of run() sees: "returned v" (None when the agenda ran dry; a stale stop callback left by an
    earlier run() that ended with an exception also makes a plain run() return) *)
 Definition ret_norm (x : state * result) : state * result :=
   match snd x with ROk => (fst x, RStop VNone) | _ => x end.
 
-Definition run_item (fuel : nat) (codes : list prog) (it : pitem) (s : state) : state * result :=
+Definition run_item_sel (fixed_stop : bool) (fuel : nat) (codes : list prog) (it : pitem) (s : state) : state * result :=
   match it with
   | PExec l => let '(s1, r) := exec_top codes (exec l []) s in
                (s1, match r with FrRaise x => RRaise x | _ => ROk end)
-  | PRun => ret_norm (run fuel codes UNone s)
-  | PRunNum t => ret_norm (run fuel codes (UNum t) s)
+  | PRun => ret_norm (run_sel fixed_stop fuel codes UNone s)
+  | PRunNum t => ret_norm (run_sel fixed_stop fuel codes (UNum t) s)
   | PRunEv g => match nth g (glob s) VNone with
-                | VEv e => ret_norm (run fuel codes (UEv e) s)
+                | VEv e => ret_norm (run_sel fixed_stop fuel codes (UEv e) s)
                 | _ => (s, RRaise (kexn EAttribute M_not_an_event))
                 end
-  | PStep n => steps n fuel codes s
+  | PStep n => steps_sel fixed_stop n fuel codes s
   end.
+Definition run_item := run_item_sel true.
 
-Fixpoint run_plan (fuel : nat) (codes : list prog) (plan : list pitem) (s : state) : state * list pres :=
+Fixpoint run_plan_sel (fixed_stop : bool) (fuel : nat) (codes : list prog) (plan : list pitem) (s : state) : state * list pres :=
   match plan with
   | [] => (s, [])
-  | it :: t => let '(s1, r) := run_item fuel codes it s in
-               let '(s2, rs) := run_plan fuel codes t s1 in
+  | it :: t => let '(s1, r) := run_item_sel fixed_stop fuel codes it s in
+               let '(s2, rs) := run_plan_sel fixed_stop fuel codes t s1 in
                (s2, (r, now s1, peek s1) :: rs)
   end.
+Definition run_plan := run_plan_sel true.
 
 (* ------------------------------------------------------------------------------------------------ *)
 (* comparison with the recorded implementation trace *)
@@ -302,9 +306,17 @@ Definition pres_eqb (a b : pres) : bool :=
 Definition default_fuel : nat := 2000.
 
 (* the model's behaviour on a case: trace in chronological order, per-item results *)
-Definition model_run (t0 : Q) (scripts : list (list instr)) (plan : list pitem) : list observation * list pres :=
-  let '(s, rs) := run_plan default_fuel (map compile scripts) plan (init_state t0) in
+Definition model_run_sel (fixed_stop : bool) (t0 : Q) (scripts : list (list instr)) (plan : list pitem)
+  : list observation * list pres :=
+  let '(s, rs) := run_plan_sel fixed_stop default_fuel (map compile scripts) plan (init_state t0) in
   (rev (obs s), rs).
+Definition model_run := model_run_sel true.
+
+(* [agree] with the kernel as found before the C03 fix (for refutation witnesses / replaying old traces) *)
+Definition agree_sel (fixed_stop : bool) (t0 : Q) (scripts : list (list instr)) (plan : list pitem)
+                     (trace : list observation) (results : list pres) : bool :=
+  let '(tr, rs) := model_run_sel fixed_stop t0 scripts plan in
+  all2 obs_eqb tr trace && all2 pres_eqb rs results.
 
 Definition agree (t0 : Q) (scripts : list (list instr)) (plan : list pitem)
                  (trace : list observation) (results : list pres) : bool :=
